@@ -120,6 +120,7 @@ def simplifyCore (O : Oracle) (tie : PTerm → Bool) (rows ctx : TL) : Except Er
   let helper : Bool := decide (ctx.length * m > 0)
   if rows.length = 0 then .ok rows
   else if rows.length = 1 && !helper then .ok rows
+  else if m = 0 then .error .valueError     -- no variable at all: scipy rejects the zero-column matrix with a ValueError
   else reduce O tie (if helper then ctx else []) [] rows
 
 /-- `PolyhedralTermList.simplify`.  `Γ = none` is the call without context (`context=None`); any context
